@@ -5,6 +5,8 @@ Import-free of Mathlib so that it links as a native executable.
 -/
 import H263V.Model.Util
 import H263V.Model.Deblock
+import H263V.Model.Yuv
+import H263V.Spec.Bt601
 import H263V.Spec.AnnexJ
 import H263V.Gen.Tables
 
@@ -42,6 +44,27 @@ def runLine (line : String) : String :=
     match w.toNat?, s.toNat?, unhex h with
     | some w, some s, some img => s!"D {hex (Spec.AnnexJ.deblock img w s)}"
     | _, _, _ => "bad-op"
+  | ["Y", w, y, cb, cr] =>
+    match w.toNat?, unhex y, unhex cb, unhex cr with
+    | some w, some y, some cb, some cr =>
+      match Yuv.yuv420ToRgba y cb cr w with
+      | .ok r => s!"Y {hex r}"
+      | _ => "Y PANIC"
+    | _, _, _, _ => "bad-op"
+  | ["YS", w, y, cb, cr] =>   -- the specification: pixel (x, y) = BT.601 of luma (x, y) and chroma (x/2, y/2)
+    match w.toNat?, unhex y, unhex cb, unhex cr with
+    | some w, some y, some cb, some cr =>
+      let brw := (w + 1) / 2
+      let px : Array Nat := Id.run do
+        let mut out : Array Nat := Array.mkEmpty (y.size * 4)
+        for i in [0:y.size] do
+          let xx := i % w
+          let yy := i / w
+          let p := Spec.Bt601.pixel (y.getD i 0) (cb.getD ((yy / 2) * brw + xx / 2) 0) (cr.getD ((yy / 2) * brw + xx / 2) 0)
+          out := (((out.push p.1.toNat).push p.2.1.toNat).push p.2.2.1.toNat).push p.2.2.2.toNat
+        return out
+      s!"Y {hex px}"
+    | _, _, _, _ => "bad-op"
   | ["J"] => "J " ++ joinSp (Gen.QUANT_TO_STRENGTH.toList.map toString)
   | ["JS"] => "J " ++ joinSp (Spec.AnnexJ.tableJ2.map toString)
   | _ => "bad-op"
